@@ -170,6 +170,16 @@ func enginePoison() {
 
 var errPoison = fmt.Errorf("poison: deliberate failure")
 
+// execSpread executes through one of the four entry points, chosen by salt (results as Execute would give them: no
+// output together with an error)
+func execSpread(tpl *pongo2.Template, ctx pongo2.Context, salt uint64) (string, error) {
+	out, err := c01Exec(tpl, ctx, int(salt%4))
+	if err != nil {
+		return "", err
+	}
+	return out, nil
+}
+
 func errStr(err error) string {
 	if err == nil {
 		return ""
